@@ -4,7 +4,7 @@ SPEC = {
     "props_module": "C13",
     "model_vo": "theories/C13/Model.vo",
     "bin": "c13",
-    "n": {"quick": 10, "thorough": 300},
+    "n": {"quick": 36, "thorough": 300},
     "rule": "engine c13: n worlds = (random corpus of 10..60 documents with text / keyword / i64 / f64 single and multi-valued "
             "fields committed in 1..4 segments with deletions, a query of 9 shapes incl. match_all / multi-term / bool / prefix / "
             "function_score / constant_score, an optional root filter, an aggregation tree of depth <= 2 over terms / range / "
